@@ -85,6 +85,7 @@ GENERAL_PDDL_KEYWORDS = {
     "minimize",
     "maximize",
     "total-time",
+    "total-cost",
     "strips",
     "negative-preconditions",
     "typing",
